@@ -60,33 +60,39 @@ CLAIMS = {
              "trusted to respect == on int/float/str/date/tuple/frozenset.",
         tech="Lean 4 proof (iff characterisation, counting argument for edits) + probed hash tables + truth-table "
              "correspondence"),
-    "C03": dict(level=TV, ref="§7 C03, §12.6",
-        text="Two layers, 55 kernel-checked theorems (+9 in generated files), one narrowed statement open. "
-             "(1) HeapIR: a small imperative IR for the heap effects of a Python function body (alloc / bind / load / store / "
-             "augmented assignment in place on containers / mutating method calls / calls through computed summaries / loops and "
-             "branches driven by an oracle), an executable total semantics on the heap model, and a decidable static discipline "
-             "writesOnlyFresh (abstract interpretation: every store, in-place update or mutating call targets an object allocated in "
-             "this call). frame_of_discipline proves ONCE that a disciplined function leaves every location allocated before the "
-             "call unchanged - for all heaps, arguments, oracle choices, call depths, whether it returns or raises - and "
-             "frame_chain_ir lifts it to every position in a chain. harness/translate_c03ir.py translates the AST of ALL of "
-             "bermuda/**/*.py to this IR on every run (464 functions today, none untranslated) and Lean re-proves "
-             "all_disciplined by decide +kernel over the regenerated program (451 disciplined; 161 of the 167 operations of the "
-             "harness registry are covered by frame_translated_functions). 14 negative controls (total = values[0]; total += v / "
-             "values = cell.values; values[k] = v / .update on a parameter dict / mutated default list / .sort() on cells) are "
-             "rejected by the discipline and shown to mutate concretely. (2) the earlier hand-written heap models of 17 accumulating "
-             "helpers with AST-regenerated accumulator patterns (frame_<fn>, all_patterns_fresh). OPEN: the six registry entry points "
-             "outside the discipline (wide data-frame/CSV readers: _check_index_columns converts date columns of the DATA FRAME in "
-             "place; long_data_frame_to_triangle and three helpers summarised as pure after review; mutators by contract). All entry "
-             "points are in addition covered by the correspondence: a registry of 167 public operations x argument shapes x chain "
-             "positions, deep fingerprints (class, dates, metadata incl. dict order, key order, value type, dtype, shape, raw bytes) of "
-             "every argument before and after each call whether it returned or raised, and a second run with every argument array "
-             "read-only; a discipline failure triggers the fingerprint search for a concrete mutated argument.",
-        note=COMMON_NOTE + "The theorem is about the IR program: that the IR over-approximates the Python function is the "
-             "translator's obligation (trusted, listed in full in the evidence: desugaring, the summary tables for numpy/pandas/"
-             "toolz/stdlib calls, callbacks assumed pure, parameters annotated with immutable types treated as immutable, dict keys "
-             "not tracked, four functions summarised as pure after review). Aliasing inside numpy/pandas/altair is not modelled. "
-             "Hence translation_validation, not proof.",
-        tech="Lean 4 soundness theorem for a write discipline on an imperative IR + AST-to-IR translator re-run each check + decide over the regenerated program + fingerprint correspondence"),
+    "C03": dict(level=PV, ref="§7 C03, §12.6",
+        text="PARTIAL (the theorem is about the IR program the translator emits from /repo's AST on every run; that the IR over-approximates "
+             "the Python function - desugaring, the library-call summary tables, pure callbacks, honoured annotations - is trusted and "
+             "listed in full in the evidence; aliasing inside numpy/pandas/altair and cached_property slots are not modelled). 64 "
+             "kernel-checked theorems (+10 in generated files), none open. (1) HeapIR: a small imperative IR for the heap effects of a "
+             "Python function body (alloc / bind / load / store / augmented assignment in place on containers / mutating method calls / "
+             "calls through computed summaries / loops and branches driven by an oracle), an executable total semantics on the heap model, "
+             "and a decidable static discipline (abstract interpretation: every store, in-place update or mutating call targets an object "
+             "allocated in this call, or the object of an UNPROTECTED data-frame parameter). frame_protected / frame_of_discipline prove ONCE "
+             "that a disciplined function leaves every location allocated before the call - except the objects handed to unprotected "
+             "parameters - unchanged, for all heaps, arguments, oracle choices, call depths, whether it returns or raises; "
+             "frame_protected_reachable: with `separated` (protected and unprotected arguments not aliased at entry, checked by object "
+             "identity on every harness call that receives a data frame) everything reachable from the Triangle / Cell / Metadata "
+             "arguments; frame_chain_ir: every position in a chain. harness/translate_c03ir.py translates ALL of bermuda/**/*.py "
+             "(464 functions, none untranslated; 461 disciplined, the other 3 are mutators by contract - Matrix.__setitem__, "
+             "_BodyRawIO.readinto, _open_s3_stream - excluded by name: mutators_excluded) and Lean re-proves all_disciplined by "
+             "decide +kernel over the regenerated program on every run. frame_registry_entry_points covers ALL 168 operations of the "
+             "harness registry (registryOps regenerated from harness/c03.py; registry_all_covered). Negative controls by decide +kernel "
+             "(total = values[0]; total += v / values = cell.values; values[k] = v / .update on a parameter dict / mutated default list / "
+             ".sort() on cells / a write through what a data frame holds into a Metadata's details) are rejected by the discipline AND "
+             "shown to mutate concretely. (2) the earlier hand-written heap models of 17 accumulating helpers with AST-regenerated "
+             "accumulator patterns (frame_<fn>, all_patterns_fresh). (3) Correspondence: the registry of 168 public operations x "
+             "argument shapes (incl. mixed value kinds, >= 1000 samples) x chain positions, deep fingerprints (class, dates, metadata incl. "
+             "dict order, key order, value type, dtype, shape, raw bytes) of every argument before and after each call whether it returned "
+             "or raised, and a second run with every argument array read-only; a discipline failure starts a call-graph-seeded search "
+             "for a concretely mutated argument.",
+        note=COMMON_NOTE + "Trusted: harness/translate_c03ir.py (Python AST -> HeapIR) and its tables of library-call summaries, callbacks "
+             "assumed pure, annotations honoured (two unannotated `resolution` parameters assumed tuple[int, str], checked on every call of "
+             "the run), dict keys not tracked, caches not modelled. If a refactor makes the translator lose an entry function (unknown library "
+             "call) the operation moves to registryUncovered, the evidence shows heapir/registry_ops_not_covered > 0 and the fingerprint "
+             "correspondence remains; only a detected write through a protected reference breaks the build.",
+        tech="Lean 4 soundness theorem for a write discipline on an imperative IR + AST-to-IR translator re-run each check + decide over the "
+             "regenerated program + fingerprint correspondence"),
     "C04": dict(level=PV, ref="§7 C04",
         text="Kernel-checked theorems about the model of to_incremental / to_cumulative: toCum_toInc (exact round trip "
              "for every well-formed cumulative triangle: order, dates, metadata, key order, values and value kinds; "
